@@ -361,9 +361,21 @@ func (a *sparseArrayObject) _defineIdxProperty(idx uint32, desc PropertyDescript
 					a.length = idx + 1
 				}
 			} else {
-				a.val.self.(*arrayObject).values[idx] = prop
+				// the array has just switched to the dense representation
+				da := a.val.self.(*arrayObject)
+				if da.values[idx] == nil {
+					da.objCount++
+				}
+				da.values[idx] = prop
+				if _, ok := prop.(*valueProperty); ok {
+					da.propValueCount++
+				}
+				return ok
 			}
 		} else {
+			if _, ok := a.items[i].value.(*valueProperty); ok {
+				a.propValueCount--
+			}
 			a.items[i].value = prop
 		}
 		if _, ok := prop.(*valueProperty); ok {
